@@ -209,7 +209,7 @@ func runC10(c *Ctx) {
 			}
 			underErr, underWkt := false, false
 			for cur := p.Parent(b); cur != nil && cur != rec.Decl; cur = p.Parent(cur) {
-				if ifs, ok := cur.(*ast.IfStmt); ok {
+				if ifs, ok := cur.(*ast.IfStmt); ok && containsNode(ifs.Body, b) {
 					if nonNilErrTested(info, ifs.Cond) != nil {
 						underErr = true
 					}
@@ -219,6 +219,11 @@ func runC10(c *Ctx) {
 				}
 			}
 			if underErr && !underWkt {
+				otherContinue = true
+			}
+			// a well-known-type shortcut that is not under the not-exist error at all: it skips the module lookup, so a
+			// module that *does* provide the path stops being a dependency
+			if underWkt && !underErr {
 				otherContinue = true
 			}
 			return true
@@ -482,4 +487,5 @@ func runC10(c *Ctx) {
 		}
 	}
 	c10Extra(c)
+	c10MissingImportIsError(c)
 }
